@@ -243,6 +243,16 @@ var _ rpc.Resources
 //@   assigns c.queue, elems(c.queue)
 //@   safety[C15]
 
+// The worker: once woken it runs every function in the queue, in order, and goes back to sleep
+// only when it has run the last one - also when the connection is disposed meanwhile: what
+// Enqueue accepted is run (a disposed subscription's resource is given back by such a function).
+//@ func (*wsConn).outputWorker
+//@   requires c != nil
+//@   loop 2 invariant 0 <= idx
+//@   loop 2 exits[C07,C11] idx >= len(c.queue)
+//@   assert[C03,C07] f#1: idx < len(c.queue) && f == c.queue[idx]
+//@   safety[C15]
+
 //@ func (*wsConn).Access
 //@   defers cb
 //@   assigns pkgstate(rescache), cachecontainers()
